@@ -189,7 +189,7 @@ def run(seed, tier):
                 "values, beta=0 hottest or not, blobs on/off) driven down EVERY decision path by scripted uniforms (u=0 / u=1-2^-53), "
                 "plus random uniforms; each call is one Coq case for the float instance of the sweep; direct oracle = the property's "
                 "adjacent-exchange statement in 50-digit decimals; exact sweep kernel on 3x3 configuration spaces for Pi K = Pi. "
-                "non-trivial = a path with >=1 accepted and >=1 refused exchange; distinct = distinct (betas, logls, path)")
+                "the beta every level steps at is compared with the beta its exchanges use (hottest level at 0 included); non-trivial = a path with >=1 accepted and >=1 refused exchange; distinct = distinct (betas, logls, path)")
     nconf = 500 if thorough else 25
     terms, meta = [], []
     for k in range(nconf):
@@ -198,6 +198,16 @@ def run(seed, tier):
         via = rng.choice([None, None, 'state', 'setter'])
         rig = Rig(betas, blobs=rng.random() < 0.5, via=via, built_with=gen_betas(rng, n))
         out.count('ladder_via_%s' % (via or 'constructor'))
+        # the exchange ratio is the ratio of the joint tempered target only if the beta a level steps at is the beta its
+        # exchanges are decided with (also for a hottest level at beta = 0)
+        # (a ladder re-assigned through the betas setter after construction is outside the property's quantifier - the setter does not
+        # reach the levels - and is used here only to see that the sweep reads the current ladder)
+        lv = [float(c.beta) for c in rig.pt.chains]
+        if via != 'setter' and lv != rig.betas:
+            out.violations.append(dict(what='levels step at betas %s while their exchanges are decided with %s (ladder given %s)'
+                                            % (lv, rig.betas, 'to the constructor' if via is None else 'through ' + via),
+                                       replay=dict(betas=betas, ladder_via=via, level_betas=lv, swap_betas=rig.betas)))
+            break
         for _ in range(3 if thorough else 2):
             logls = gen_logls(rng, n)
             paths = all_paths(rig, logls)
